@@ -760,3 +760,253 @@ Theorem C06_no_mutable_package_state :
   StateInventory.rg_mutated g = false /\ StateInventory.rg_escapes g = false.
 Proof. apply StateInventory.pkg_state_ok_spec. vm_compute. reflexivity. Qed.
 Print Assumptions C06_no_mutable_package_state.
+
+(** * 11. the positions the OP_CHECKMULTISIG loop examines; the full multisig side of the flag table
+    (spec/MultisigTraceSpec.v, proofs/MultisigTrace.v)
+
+    The node's walk, independent of the model: [examined ok nsigs nkeys] lists the (signature index, key index)
+    pairs looked at, in loop order (pop order: index 0 is the LAST key / signature of the script) — start at
+    (0,0); success advances both, failure advances the key; stop when every signature is matched or fewer keys
+    than signatures remain.  Below, for argument lists [sigs], [pks]:
+      [ms_ok sigs pks j i]   = [pair_ok] of signature j and key i,
+      [ms_trace sigs pks]    = [examined (ms_ok sigs pks) (length sigs) (length pks)],
+      [ms_bad sigs pks j i]  = signature j fails check_hash_type / check_sig_enc, or key i fails check_pubkey_enc,
+      [ms_stop sigs pks j i] = both parse, and the script code does not unparse / the digest is not computable
+                               (PushBool(false); return nil) or the oracle table has no answer. *)
+From GoBT Require Import spec.MultisigTraceSpec proofs.MultisigTrace.
+
+(** the closed form of the walk: the k-th examined pair has key index k and signature index [hits k] (the number
+    of successes among the earlier pairs); it exists exactly while that signature exists and the signatures left
+    are not more than the keys left *)
+Theorem C06_examined_closed_form : forall ok nsigs nkeys,
+  examined ok nsigs nkeys = map (fun k => (hits ok k, k)) (seq 0 (length (examined ok nsigs nkeys))) /\
+  (forall j i, In (j, i) (examined ok nsigs nkeys) <-> reached ok nsigs nkeys j i) /\
+  (forall k j i, nth_error (examined ok nsigs nkeys) k = Some (j, i) -> i = k /\ j = hits ok k) /\
+  (forall j i, In (j, i) (examined ok nsigs nkeys) -> (j < nsigs /\ i < nkeys)%nat).
+Proof.
+  intros ok nsigs nkeys. split; [apply examined_closed|]. split; [apply examined_iff_reached|].
+  split; [apply examined_nth|apply examined_bounds].
+Qed.
+Print Assumptions C06_examined_closed_form.
+
+(** the trace theorem.  For ALL argument lists, oracles, flags (no hypothesis: also nsigs > nkeys, no signature,
+    empty signatures, ill-encoded elements, oracles without an answer): the loop as opcodeCheckMultiSig runs it
+    (coded counters, fresh memo, fuel = keys + 1) returns what the FIRST pair of the walk that is bad (hard
+    error) or that stops the operation decides, and the verdict of the walk — every signature found its key —
+    if there is none.  The encoding checks are thus evaluated exactly along the walk: the signature's (hash
+    type, then DER) before the key's within a pair; the memo [parsedSigInfo.parsed] only spares re-checking a
+    signature that has passed at its first pairing. *)
+Theorem C06_multisig_examined_positions : forall orc t in_idx c script pks sigs,
+  ms_loop orc t in_idx c script pks sigs (S (length pks)) (repeat None (length sigs)) (-1)
+          (Z.of_nat (length pks) + 1) 0 (Z.of_nat (length sigs))
+  = trace_outcome (ms_bad c sigs pks) (ms_stop orc t in_idx c script sigs pks) LErr LDone
+                  (verdict (ms_ok orc t in_idx c script sigs pks) (length sigs) (length pks))
+                  (ms_trace orc t in_idx c script sigs pks).
+Proof. exact ms_loop_trace. Qed.
+Print Assumptions C06_multisig_examined_positions.
+
+(** unrolled to any position: when no earlier pair is bad or stops, the pair at that position decides *)
+Theorem C06_multisig_first_pair_decides : forall orc t in_idx c script pks sigs pre j i post,
+  ms_trace orc t in_idx c script sigs pks = pre ++ (j, i) :: post ->
+  (forall j' i', In (j', i') pre -> ms_bad c sigs pks j' i' = false /\ ms_stop orc t in_idx c script sigs pks j' i' = None) ->
+  ms_loop orc t in_idx c script pks sigs (S (length pks)) (repeat None (length sigs)) (-1)
+          (Z.of_nat (length pks) + 1) 0 (Z.of_nat (length sigs))
+  = if ms_bad c sigs pks j i then LErr
+    else match ms_stop orc t in_idx c script sigs pks j i with
+         | Some r => r
+         | None => trace_outcome (ms_bad c sigs pks) (ms_stop orc t in_idx c script sigs pks) LErr LDone
+                                 (verdict (ms_ok orc t in_idx c script sigs pks) (length sigs) (length pks)) post
+         end.
+Proof. exact ms_loop_first_decides. Qed.
+Print Assumptions C06_multisig_first_pair_decides.
+
+(** the verdict of the walk is first fit, hence the monotone matching ([greedy_spec], as in [C06_multisig_matching]) *)
+Theorem C06_multisig_trace_verdict : forall orc t in_idx c script pks sigs,
+  verdict (ms_ok orc t in_idx c script sigs pks) (length sigs) (length pks) = true <->
+  monotone_matching (fun s k => pair_ok orc t in_idx c script s k = true) sigs pks.
+Proof. intros. rewrite <- greedy_is_verdict. apply greedy_spec. Qed.
+Print Assumptions C06_multisig_trace_verdict.
+
+(** EXACTLY those positions: two argument lists of the same lengths that agree on the examined positions of one
+    of them give the same result (for every oracle; nothing else is looked at) *)
+Theorem C06_multisig_unexamined_irrelevant : forall orc t in_idx c script pks sigs pks' sigs',
+  length pks' = length pks -> length sigs' = length sigs ->
+  (forall j i, In (j, i) (ms_trace orc t in_idx c script sigs pks) ->
+               nth_error sigs' j = nth_error sigs j /\ nth_error pks' i = nth_error pks i) ->
+  ms_loop orc t in_idx c script pks' sigs' (S (length pks')) (repeat None (length sigs')) (-1)
+          (Z.of_nat (length pks') + 1) 0 (Z.of_nat (length sigs'))
+  = ms_loop orc t in_idx c script pks sigs (S (length pks)) (repeat None (length sigs)) (-1)
+          (Z.of_nat (length pks) + 1) 0 (Z.of_nat (length sigs)).
+Proof. exact ms_loop_unexamined_irrelevant. Qed.
+Print Assumptions C06_multisig_unexamined_irrelevant.
+
+(** the multisig side of the flag table, complete (replaces the soundness-only [C06_flag_table_multisig_partial]).
+    When the oracle answers and the digest of every non-empty signature is computable ([sig_digestable]: the
+    script code unparses and hashes — on a running script see [C06_checkmultisig_accepts_iff_matching_running];
+    NO hypothesis on the encodings, on the counts, or on which signatures are empty):
+      hard error  <->  some EXAMINED pair (j, i) has signature j failing check_hash_type / check_sig_enc or
+                       key i failing check_pubkey_enc ([bad_pair_examined]);
+      otherwise the loop ends normally with the monotone-matching verdict.
+    Which elements fail under which flags: [C06_hash_type_rule_all_flags], [C06_der_check_spec],
+    [C06_low_s_spec], [C06_pubkey_rule]. *)
+Theorem C06_flag_table_multisig : forall orc t in_idx c script pks sigs,
+  oracle_total orc -> Forall (sig_digestable t in_idx c script) sigs ->
+  let res := ms_loop orc t in_idx c script pks sigs (S (length pks)) (repeat None (length sigs)) (-1)
+                     (Z.of_nat (length pks) + 1) 0 (Z.of_nat (length sigs)) in
+  (res = LErr <->
+   exists j i raw pk, In (j, i) (ms_trace orc t in_idx c script sigs pks) /\
+                      nth_error sigs j = Some raw /\ nth_error pks i = Some pk /\
+                      ((exists sg hb, split_last raw = Some (sg, hb) /\
+                                      (check_hash_type c (b2n hb) = false \/ check_sig_enc c sg = EncErr)) \/
+                       check_pubkey_enc c pk = false)) /\
+  (~ bad_pair_examined orc t in_idx c script pks sigs ->
+   exists b, res = LDone b /\
+             (b = true <-> monotone_matching (fun s k => pair_ok orc t in_idx c script s k = true) sigs pks)).
+Proof. exact flag_table_multisig. Qed.
+Print Assumptions C06_flag_table_multisig.
+
+(** what the partial theorem could not say: a malformed key or signature at a position the walk never reaches
+    is NOT an error.  (1) If every examined pair passes the enabled checks the loop ends normally, whatever
+    stands elsewhere; (2) a key at or beyond position [length trace] is not examined (every signature has
+    matched, or the walk has given up for lack of keys, before it); (3) a key that is not examined can be
+    replaced by any bytes without changing the result. *)
+Theorem C06_multisig_unreached_is_not_an_error : forall orc t in_idx c script pks sigs,
+  oracle_total orc -> Forall (sig_digestable t in_idx c script) sigs ->
+  (forall j i raw pk, In (j, i) (ms_trace orc t in_idx c script sigs pks) ->
+                      nth_error sigs j = Some raw -> nth_error pks i = Some pk ->
+                      ~ sig_fails c raw /\ check_pubkey_enc c pk = true) ->
+  exists b,
+    ms_loop orc t in_idx c script pks sigs (S (length pks)) (repeat None (length sigs)) (-1)
+            (Z.of_nat (length pks) + 1) 0 (Z.of_nat (length sigs)) = LDone b /\
+    (b = true <-> monotone_matching (fun s k => pair_ok orc t in_idx c script s k = true) sigs pks).
+Proof. exact unreached_is_not_an_error. Qed.
+Print Assumptions C06_multisig_unreached_is_not_an_error.
+
+Theorem C06_multisig_key_beyond_trace : forall orc t in_idx c script pks sigs i,
+  (length (ms_trace orc t in_idx c script sigs pks) <= i)%nat ->
+  forall j, ~ In (j, i) (ms_trace orc t in_idx c script sigs pks).
+Proof. exact key_beyond_trace_unexamined. Qed.
+Print Assumptions C06_multisig_key_beyond_trace.
+
+Theorem C06_multisig_unexamined_key_replaced : forall orc t in_idx c script pks sigs i0 pk',
+  (forall j, ~ In (j, i0) (ms_trace orc t in_idx c script sigs pks)) ->
+  let pks' := firstn i0 pks ++ pk' :: skipn (S i0) pks in
+  (i0 < length pks)%nat ->
+  ms_loop orc t in_idx c script pks' sigs (S (length pks')) (repeat None (length sigs)) (-1)
+          (Z.of_nat (length pks') + 1) 0 (Z.of_nat (length sigs))
+  = ms_loop orc t in_idx c script pks sigs (S (length pks)) (repeat None (length sigs)) (-1)
+          (Z.of_nat (length pks) + 1) 0 (Z.of_nat (length sigs)).
+Proof. exact unexamined_key_replaced. Qed.
+Print Assumptions C06_multisig_unexamined_key_replaced.
+
+(** the operation itself (OP_CHECKMULTISIG, not VERIFY) on a well-shaped stack: it is a script error exactly for
+    a non-empty dummy under STRICTMULTISIG (NULLDUMMY), an examined pair with an element failing an enabled check,
+    or NULLFAIL with a non-empty signature when the signatures cannot be matched *)
+Theorem C06_checkmultisig_error_iff : forall orc t i c s idx nk pks ns sigs dummy rest a b,
+  ds s = nk :: pks ++ ns :: sigs ++ dummy :: rest ->
+  pop_count c nk = Some a -> to_int32 a = Z.of_nat (length pks) ->
+  pop_count c ns = Some b -> to_int32 b = Z.of_nat (length sigs) ->
+  (length sigs <= length pks)%nat -> (Z.of_nat (length pks) <= max_pubkeys c)%Z ->
+  (nops s + Z.of_nat (length pks) <= max_ops c)%Z ->
+  oracle_total orc ->
+  Forall (sig_digestable t i c (multisig_code_ops c s sigs)) sigs ->
+  (checkmultisig_run orc t i c s idx false = Some OErr <->
+   (has_flag c F_STRICTMULTISIG = true /\ dummy <> []) \/
+   bad_pair_examined orc t i c (multisig_code_ops c s sigs) pks sigs \/
+   (has_flag c F_NULLFAIL = true /\ (exists sg, In sg sigs /\ sg <> []) /\
+    ~ monotone_matching (fun sg k => pair_ok orc t i c (multisig_code_ops c s sigs) sg k = true) sigs pks)).
+Proof. exact checkmultisig_error_iff. Qed.
+Print Assumptions C06_checkmultisig_error_iff.
+
+(** 2-of-3 under STRICTENC, lists in loop order, toy oracle (signature r verifies under key r), input 1 of [ex_tx].
+    Keys K1 K2 <garbage>: with signatures S1 S2 the walk is (0,0) (1,1), the garbage key is never reached and the
+    operation pushes true; with S1 S3 the walk goes on to (1,2), reaches the garbage key and the result is an
+    error.  In script order the garbage key is the FIRST key pushed. *)
+Example C06_multisig_garbage_key_not_reached :
+  let pks := [toy_key x01; toy_key x02; garbage_key] in
+  let sigs := [toy_sig x01; toy_sig x02] in
+  check_pubkey_enc strictenc_ctx garbage_key = false /\
+  toy_trace pks sigs = [(0, 0); (1, 1)]%nat /\ toy_loop pks sigs = LDone true /\
+  option_map (fun o => match o with OOk s' => ds s' | _ => [] end) (toy_op pks sigs) = Some [[x01]].
+Proof. vm_compute. repeat split; reflexivity. Qed.
+
+Example C06_multisig_garbage_key_reached :
+  let pks := [toy_key x01; toy_key x02; garbage_key] in
+  let sigs := [toy_sig x01; toy_sig x03] in
+  toy_trace pks sigs = [(0, 0); (1, 1); (1, 2)]%nat /\ toy_loop pks sigs = LErr /\ toy_op pks sigs = Some OErr.
+Proof. vm_compute. repeat split; reflexivity. Qed.
+
+(** the same for a garbage signature (hash type 00): after the walk has failed for lack of keys it is never
+    looked at and the operation pushes false; when the first signature matches it is reached: error *)
+Example C06_multisig_garbage_signature :
+  let pks := [toy_key x01; toy_key x02] in
+  sig_checks strictenc_ctx garbage_sig = false /\
+  toy_trace pks [toy_sig x09; garbage_sig] = [(0, 0)]%nat /\ toy_loop pks [toy_sig x09; garbage_sig] = LDone false /\
+  option_map (fun o => match o with OOk s' => ds s' | _ => [[x01]] end) (toy_op pks [toy_sig x09; garbage_sig]) = Some [[]] /\
+  toy_trace pks [toy_sig x01; garbage_sig] = [(0, 0); (1, 1)]%nat /\ toy_loop pks [toy_sig x01; garbage_sig] = LErr /\
+  toy_op pks [toy_sig x01; garbage_sig] = Some OErr.
+Proof. vm_compute. repeat split; reflexivity. Qed.
+
+(** the corner cases are inside the theorems, not excluded by them: 0-of-1 with a garbage key (nothing examined,
+    true); m = n in and out of order; nsigs > nkeys at entry (nothing examined, false — the operation itself
+    refuses such counts before the loop); an EMPTY signature is still paired: its key is checked *)
+Example C06_multisig_trace_corner_cases :
+  toy_trace [garbage_key] [] = [] /\ toy_loop [garbage_key] [] = LDone true /\
+  toy_trace [toy_key x01; toy_key x02] [toy_sig x01; toy_sig x02] = [(0, 0); (1, 1)]%nat /\
+  toy_loop [toy_key x01; toy_key x02] [toy_sig x01; toy_sig x02] = LDone true /\
+  toy_trace [toy_key x01; toy_key x02] [toy_sig x02; toy_sig x01] = [(0, 0)]%nat /\
+  toy_loop [toy_key x01; toy_key x02] [toy_sig x02; toy_sig x01] = LDone false /\
+  toy_trace [garbage_key] [garbage_sig; garbage_sig] = [] /\ toy_loop [garbage_key] [garbage_sig; garbage_sig] = LDone false /\
+  toy_trace [garbage_key] [[]] = [(0, 0)]%nat /\ toy_loop [garbage_key] [[]] = LErr /\
+  toy_trace [toy_key x01; garbage_key] [[]] = [(0, 0); (0, 1)]%nat /\ toy_loop [toy_key x01; garbage_key] [[]] = LErr /\
+  toy_trace [toy_key x01] [[]] = [(0, 0)]%nat /\ toy_loop [toy_key x01] [[]] = LDone false.
+Proof. vm_compute. repeat split; reflexivity. Qed.
+
+(** non-vacuity: the hypotheses of [C06_flag_table_multisig] and of [C06_checkmultisig_error_iff] hold on the
+    2-of-3 instance above (garbage key and garbage signature included: [sig_digestable] does not ask for a
+    well-encoded signature) *)
+Example C06_flag_table_multisig_hypotheses_satisfiable :
+  let pks := [toy_key x01; toy_key x02; garbage_key] in
+  let sigs := [toy_sig x01; garbage_sig] in
+  let s := toy_state pks sigs in
+  oracle_total toy_oracle /\
+  Forall (sig_digestable ex_tx 1 strictenc_ctx (multisig_code_ops strictenc_ctx s sigs)) sigs /\
+  ds s = [x03] :: pks ++ [x02] :: sigs ++ [] :: [] /\
+  pop_count strictenc_ctx [x03] = Some 3%Z /\ to_int32 3 = Z.of_nat (length pks) /\
+  pop_count strictenc_ctx [x02] = Some 2%Z /\ to_int32 2 = Z.of_nat (length sigs) /\
+  (length sigs <= length pks)%nat /\ (Z.of_nat (length pks) <= max_pubkeys strictenc_ctx)%Z /\
+  (nops s + Z.of_nat (length pks) <= max_ops strictenc_ctx)%Z.
+Proof.
+  cbv zeta. split; [exact toy_oracle_total|]. split.
+  - change (multisig_code_ops strictenc_ctx (toy_state [toy_key x01; toy_key x02; garbage_key] [toy_sig x01; garbage_sig])
+                              [toy_sig x01; garbage_sig]) with (@nil pop).
+    constructor; [apply toy_sig_digestable|]. constructor; [apply garbage_sig_digestable|constructor].
+  - repeat split; try (vm_compute; reflexivity); try (vm_compute; discriminate). vm_compute. repeat constructor.
+Qed.
+
+(** the same on a RUNNING script (the current script is a parse result, as in every execution): the digest
+    clause is a theorem, and the walk and the matching are over the SPECIFICATION's digest
+    ([ms_ok_spec sigs pks j i] = [pair_ok_spec] of signature j and key i, positions in loop order).  What remains
+    as hypotheses: the oracle answers, the transaction is well formed, the stack has the n + m + 3 shape. *)
+From GoBT Require Import proofs.MultisigTraceRunning.
+Theorem C06_checkmultisig_error_iff_running : forall orc t i c s idx nk pks ns sigs dummy rest a b inp e bs,
+  oracle_total orc ->
+  parse_script e bs = Some (cur s) -> (lenN bs < two64)%N ->
+  wf_tx t -> nth_error (tx_ins t) (N.to_nat i) = Some inp -> (i < 2147483648)%N ->
+  (N.of_nat (length (tx_outs t)) < 2147483648)%N ->
+  ds s = nk :: pks ++ ns :: sigs ++ dummy :: rest ->
+  pop_count c nk = Some a -> to_int32 a = Z.of_nat (length pks) ->
+  pop_count c ns = Some b -> to_int32 b = Z.of_nat (length sigs) ->
+  (length sigs <= length pks)%nat -> (Z.of_nat (length pks) <= max_pubkeys c)%Z ->
+  (nops s + Z.of_nat (length pks) <= max_ops c)%Z ->
+  let script := multisig_code_ops c s sigs in
+  let ok := ms_ok_spec orc (wire_tx t) (N.to_nat i) (in_sats inp) c script sigs pks in
+  (checkmultisig_run orc t i c s idx false = Some OErr <->
+   (has_flag c F_STRICTMULTISIG = true /\ dummy <> []) \/
+   (exists j k raw pk, In (j, k) (examined ok (length sigs) (length pks)) /\
+                       nth_error sigs j = Some raw /\ nth_error pks k = Some pk /\
+                       (sig_fails c raw \/ check_pubkey_enc c pk = false)) \/
+   (has_flag c F_NULLFAIL = true /\ (exists sg, In sg sigs /\ sg <> []) /\
+    ~ monotone_matching (fun sg k => pair_ok_spec orc (wire_tx t) (N.to_nat i) (in_sats inp) c script sg k = true) sigs pks)).
+Proof. exact checkmultisig_error_iff_running. Qed.
+Print Assumptions C06_checkmultisig_error_iff_running.
